@@ -166,6 +166,9 @@ func genC15(t *rapid.T) c15Case {
 		minBytes = 1
 	}
 	nb := uniformInt(t, minBytes, max(minBytes, 4000), "nbytes")
+	if rapid.IntRange(0, 7).Draw(t, "short") == 0 { // the shortest admissible inputs
+		nb = minBytes + rapid.IntRange(0, 40).Draw(t, "dshort")
+	}
 	if rapid.IntRange(0, 9).Draw(t, "boundary_len") == 0 { // byte lengths at the run-length cut-off / regime boundaries (40*2^j, 784, 93750, ...)
 		b := rapid.SampledFrom([]int{40, 80, 160, 320, 640, 1280, 2560, 5120, 10240, 784, 125, 1250}).Draw(t, "blen") + rapid.IntRange(-1, 1).Draw(t, "dlen")
 		if b >= minBytes {
